@@ -78,3 +78,19 @@ def run(ctx, rep, n_programs, n_random_layouts=2, n_mutants=0):
             base = gs.render(prog, gs.random_layout(random.Random(rng.random())))
             muts.append((f'mutant{i}', ts.mutate(rng, base)))
         compare(ctx, rep, muts, 'mutants', strict=False)
+
+
+def replay(ctx, rep, case):
+    """A text-only case (found by the whole-script tie): show both sides; a remaining difference is a disagreement."""
+    print('  script :', case['text'].replace('\n', ' ⏎ '))
+    got = impl(case['text'])
+    print('  impl   :', json.dumps(got)[:400])
+    try:
+        model = json.loads(ctx.drive([line(case['text'])])[0])
+    except Exception as e:  # noqa: BLE001
+        print('  model: <driver unavailable>', e)
+        return
+    print('  model  :', json.dumps(model)[:400])
+    same = (('ok' in got and model.get('ok') == got['ok']) or ('err' in got and model.get('err') == got['err']))
+    if not same:
+        rep.disagree('parse_model vs Pipeline.parseModelText [replay]', case, json.dumps(model)[:600], json.dumps(got)[:600])
